@@ -514,6 +514,14 @@ func (c *ChannelArbitrator) progressStateMachineAfterRestart(bestHeight int32,
 		case StateBroadcastCommit:
 			fallthrough
 		case StateCommitmentBroadcasted:
+			fallthrough
+
+		// If we stopped after committing StateContractClosed but before
+		// the resolvers were inserted, the state step is re-executed.
+		// It must classify the HTLCs with the close trigger again: with
+		// a chain trigger, HTLCs that have not reached their broadcast
+		// cutoff yet would get no action (and no resolver) at all.
+		case StateContractClosed:
 			switch c.cfg.CloseType {
 
 			case channeldb.CooperativeClose:
